@@ -180,6 +180,14 @@ pub trait Sim: Sync {
   fn expected_probes(&self) -> Vec<&'static str> {
     vec![]
   }
+  /// Signature of a process death / hang of the run of this plan (no panic record exists for those).
+  fn death_signature(&self, _plan: &Value, _how: &str, _hang: bool, _marker: Option<&str>) -> Option<String> {
+    None
+  }
+  /// Is a watchdog expiry of this plan inconclusive rather than a violation?
+  fn hang_is_inconclusive(&self, _plan: &Value) -> bool {
+    false
+  }
   /// Extra, simulator specific passes run by the parent after the batch (e.g. loopback conformance).
   fn extra_pass(&self, _tier: Tier, _seed: u64) -> Option<ExtraPass> {
     None
